@@ -20,11 +20,13 @@ Record cfg_facts (g : cfg) : Prop := {
   cf_later : c_later_types g = [c_invoke g; c_ping g];
   cf_neq : c_invoke g <> c_ping g;
   cf_gate : forall sty, c_gate g sty = true;
-  cf_ok : c_ok_only g = true }.
+  cf_ok : c_ok_only g = true;
+  cf_client : c_client_uses_reply_ser g = true }.
 
 Lemma cfg_ok_facts : forall g, cfg_ok g = true -> cfg_facts g.
 Proof.
   intros g H. unfold cfg_ok in H.
+  apply andb_true_iff in H. destruct H as [H Hcl].
   apply andb_true_iff in H. destruct H as [H Hok].
   apply andb_true_iff in H. destruct H as [H Hmux].
   apply andb_true_iff in H. destruct H as [H Hthr].
@@ -35,6 +37,7 @@ Proof.
   - apply list_eqbN_eq; assumption.
   - apply negb_true_iff in Hneq. apply N.eqb_neq in Hneq. assumption.
   - intros []; assumption.
+  - assumption.
   - assumption.
 Qed.
 
